@@ -52,10 +52,10 @@ func NewOCSPParties(name string, issuer, leaf *gen.Cert) *OCSPParties {
 	p := &OCSPParties{Issuer: issuer, Leaf: leaf}
 	p.Delegated = gen.Issue(gen.CertSpec{Key: "p256c", Subject: gen.CN(name + " ocsp responder"), SerialHex: "7001", OCSPSigner: true, KeyUsage: "ds"}, issuer)
 	p.DelegatedBig = gen.Issue(gen.CertSpec{Key: "rsa3072", Subject: gen.NameSpec{{{T: "O", V: "verif"}}, {{T: "OU", V: strings.Repeat("responder unit ", 70)}}, {{T: "CN", V: name + " big ocsp responder"}}}, SerialHex: "7005", OCSPSigner: true, KeyUsage: "ds"}, issuer)
-	p.Mimic = gen.Issue(gen.CertSpec{Key: "p256e", Subject: issuer.Spec.Subject, SerialHex: issuer.Spec.SerialHex, IsCA: true, SKIHex: hex.EncodeToString(issuer.Cert.SubjectKeyId)}, nil)
+	p.Mimic = gen.Issue(gen.CertSpec{Key: "p224", Subject: issuer.Spec.Subject, SerialHex: issuer.Spec.SerialHex, IsCA: true, SKIHex: hex.EncodeToString(issuer.Cert.SubjectKeyId)}, nil)
 	p.NoEKU = gen.Issue(gen.CertSpec{Key: "p256d", Subject: gen.CN(name + " noeku"), SerialHex: "7002", NoEKU: true, KeyUsage: "ds"}, issuer)
 	p.ClientEKU = gen.Issue(gen.CertSpec{Key: "p256d", Subject: gen.CN(name + " other client"), SerialHex: "7003", KeyUsage: "ds"}, issuer)
-	p.Stranger = gen.Issue(gen.CertSpec{Key: "p256e", Subject: gen.CN(name + " stranger"), SerialHex: "7004", IsCA: true}, nil)
+	p.Stranger = gen.Issue(gen.CertSpec{Key: "p521", Subject: gen.CN(name + " stranger"), SerialHex: "7004", IsCA: true}, nil)
 	p.Sibling = gen.Issue(gen.CertSpec{Key: "p256e", Subject: issuer.Spec.Subject, SerialHex: issuer.Spec.SerialHex, IsCA: true}, nil)
 	return p
 }
